@@ -260,7 +260,7 @@ func runBoxSched(r *prng.R, s *out.Sink, tier string) {
 	// schedules follow
 	limit, extra := 4000, 1500
 	if tier == "thorough" {
-		limit, extra = 150000, 60000
+		limit, extra = 60000, 30000
 	}
 	total := 0
 	for _, sc := range schedScenarios() {
